@@ -340,11 +340,13 @@ class PendingWhile(_PendingLoop[While]):
             while_loop_orelse = self.nsp_global.expr_wraper(self.converted_orelse)
 
         # the main body of the oneliner while loop
+        # `dummy_name` is not used, the name should not conflict with user's names
+        dummy_name = ol_name(OL_WHILE_DUMMY)
         while_loop_body = ListComp(
             elt=self.nsp_global.expr_wraper(self.converted_body),
             generators=[
                 comprehension(
-                    target=Name(id="_", ctx=Store()),
+                    target=Name(id=dummy_name, ctx=Store()),
                     iter=Call(
                         func=Attribute(
                             value=Name(id="itertools", ctx=Load()),
@@ -355,7 +357,7 @@ class PendingWhile(_PendingLoop[While]):
                             Lambda(
                                 args=arguments(
                                     posonlyargs=[],
-                                    args=[arg(arg="_")],
+                                    args=[arg(arg=dummy_name)],
                                     kwonlyargs=[],
                                     kw_defaults=[],
                                     defaults=[],
